@@ -1,12 +1,968 @@
-//! stub: property C13 has no correspondence harness yet
+//! C13 — content coding is lossless, correctly labelled and correctly negotiated.
+//!
+//! Real code, public API only:
+//!   neg  : `AcceptEncoding::parse` + `ranked_items` (via `ranked`) + `negotiate`
+//!   resp : `App::new().wrap(Compress::default())` test service around a scripted handler body
+//!          (`MessageBody` with chosen `size()`, chunk boundaries, Pending and error events);
+//!          the body is polled by hand and decoded with flate2 / brotli / zstd directly
+//!   req  : a scripted request payload compressed by the codec crates, sent with Content-Encoding,
+//!          read by a `web::Bytes` extractor (→ `dev::Decompress`)
+//!
+//! Oracle (no model involved): decoded == what the handler wrote; the coding named in
+//! Content-Encoding is permitted by the request's Accept-Encoding per RFC 7231 §5.3.4 (own
+//! parser below); an encoded body is not `Sized`; pass-through responses are untouched, chunk for
+//! chunk; the body stream ends and stays ended.
+use std::{
+    cell::RefCell,
+    collections::VecDeque,
+    io::Read,
+    pin::Pin,
+    rc::Rc,
+    task::{Context, Poll},
+    time::Duration,
+};
+
+use actix_web::{
+    body::{BodySize, MessageBody},
+    http::{header, StatusCode},
+    middleware::Compress,
+    test, web, App, HttpResponse,
+};
+use bytes::Bytes;
+
 use super::Prop;
-use crate::common::CaseResult;
+use crate::common::{block_on_system, kv, CaseResult, Ctx, Rng, Tier};
+
+const RULE: &str = "cases = (neg) Accept-Encoding header texts from a grammar (codings incl. *, identity, unknown \
+tokens, mixed case; q-values in all decimal forms, Q=, malformed items; several header lines) × supported sets, \
+exhaustive for ≤2 items over a 5-coding × 4-q alphabet; (resp) Compress-wrapped service: Accept-Encoding × status \
+{200,201,204,206,101,304,404,500} × handler Content-Encoding/Vary/Content-Type × body kind {Bytes, sized stream, \
+stream, None} × bodies {0,1,1023,1024,1025,2047,2048,2049, random, 1 MiB; compressible and PRNG} × chunkings \
+(all compositions of small bodies, threshold pairs, random) with Pending and error events; (req) bodies sent with \
+each Content-Encoding in varied chunkings. non-trivial = a non-empty body was encoded or passed through by rule, a \
+406 was produced, a request body was decoded, or a non-empty header was negotiated; distinct = distinct (case, output) hashes";
+
+// ---------------------------------------------------------------------------------------------
+// shared helpers
+
+/// blanks inside a case-line value are written as `_`
+fn unplus(s: &str) -> String {
+    s.replace('_', " ")
+}
+fn plus(s: &str) -> String {
+    s.replace(' ', "_")
+}
+
+fn pat_byte(seed: usize, i: usize) -> u8 {
+    (97 + ((i / 13) * 7 + i % 5 + seed) % 23) as u8
+}
+
+fn gen_body(spec: &str, n: usize) -> Vec<u8> {
+    let seed: usize = spec.get(1..).and_then(|s| s.parse().ok()).unwrap_or(0);
+    if spec.starts_with('r') {
+        Rng::new(seed as u64).bytes(n)
+    } else {
+        (0..n).map(|i| pat_byte(seed, i)).collect()
+    }
+}
+
+fn adler(bs: &[u8]) -> u64 {
+    let (mut a, mut b) = (1u64, 0u64);
+    for &x in bs {
+        a = (a + x as u64) % 65521;
+        b = (b + a) % 65521;
+    }
+    b * 65536 + a
+}
+
+fn show_sum(bs: &[u8]) -> String {
+    format!("n={} sum={}", bs.len(), adler(bs))
+}
+
+#[derive(Clone, Copy, Debug, PartialEq)]
+enum Tok {
+    Sz(usize),
+    P,
+    E,
+}
+
+fn parse_toks(s: &str) -> Vec<Tok> {
+    s.split(',')
+        .filter_map(|t| match t {
+            "p" => Some(Tok::P),
+            "e" => Some(Tok::E),
+            t => t.parse().ok().map(Tok::Sz),
+        })
+        .collect()
+}
+
+fn decode(coding: &str, data: &[u8]) -> Result<Vec<u8>, String> {
+    let mut out = Vec::new();
+    match coding {
+        "gzip" => {
+            let mut d = flate2::bufread::GzDecoder::new(data);
+            d.read_to_end(&mut out).map_err(|e| format!("gzip: {e}"))?;
+            if !d.into_inner().is_empty() {
+                return Err("gzip: trailing bytes after the member".into());
+            }
+        }
+        "deflate" => {
+            let mut d = flate2::bufread::ZlibDecoder::new(data);
+            d.read_to_end(&mut out).map_err(|e| format!("zlib: {e}"))?;
+            if !d.into_inner().is_empty() {
+                return Err("zlib: trailing bytes after the stream".into());
+            }
+        }
+        "br" => {
+            let mut d = brotli::Decompressor::new(data, 4096);
+            d.read_to_end(&mut out).map_err(|e| format!("br: {e}"))?;
+        }
+        "zstd" => {
+            out = zstd::decode_all(data).map_err(|e| format!("zstd: {e}"))?;
+        }
+        other => return Err(format!("no decoder for '{other}'")),
+    }
+    Ok(out)
+}
+
+fn encode(coding: &str, data: &[u8]) -> Vec<u8> {
+    use std::io::Write;
+    match coding {
+        "gzip" => {
+            let mut e = flate2::write::GzEncoder::new(Vec::new(), flate2::Compression::default());
+            e.write_all(data).unwrap();
+            e.finish().unwrap()
+        }
+        "deflate" => {
+            let mut e = flate2::write::ZlibEncoder::new(Vec::new(), flate2::Compression::default());
+            e.write_all(data).unwrap();
+            e.finish().unwrap()
+        }
+        "br" => {
+            let mut out = Vec::new();
+            {
+                let mut e = brotli::CompressorWriter::new(&mut out, 4096, 4, 20);
+                e.write_all(data).unwrap();
+            }
+            out
+        }
+        "zstd" => zstd::encode_all(data, 3).unwrap(),
+        _ => data.to_vec(),
+    }
+}
+
+// ---------------------------------------------------------------------------------------------
+// the oracle's own reading of RFC 7231 §5.3.4 (written from the RFC text, not from the code)
+
+#[derive(Debug)]
+struct RfcAe {
+    /// (lower-cased coding or "*", q in thousandths)
+    items: Vec<(String, u32)>,
+    /// some element did not match `codings [ weight ]`
+    malformed: bool,
+}
+
+fn rfc_qvalue(s: &str) -> Option<u32> {
+    // qvalue = ( "0" [ "." 0*3DIGIT ] ) / ( "1" [ "." 0*3("0") ] )
+    let (ip, fp) = match s.split_once('.') {
+        Some((a, b)) => (a, b),
+        None => (s, ""),
+    };
+    if fp.len() > 3 || !fp.bytes().all(|b| b.is_ascii_digit()) {
+        return None;
+    }
+    let mut th = 0u32;
+    for (i, b) in fp.bytes().enumerate() {
+        th += (b - b'0') as u32 * [100, 10, 1][i];
+    }
+    match ip {
+        "0" => Some(th),
+        "1" if th == 0 => Some(1000),
+        _ => None,
+    }
+}
+
+fn rfc_parse(lines: &[String]) -> RfcAe {
+    let mut ae = RfcAe { items: vec![], malformed: false };
+    for l in lines {
+        for el in l.split(',') {
+            let el = el.trim_matches(|c| c == ' ' || c == '\t');
+            if el.is_empty() {
+                continue;
+            }
+            let mut parts = el.split(';');
+            let coding = parts.next().unwrap().trim().to_ascii_lowercase();
+            let tok = |s: &str| !s.is_empty() && s.bytes().all(|b| b.is_ascii_alphanumeric() || b"!#$%&'*+-.^_`|~".contains(&b));
+            if !tok(&coding) {
+                ae.malformed = true;
+                continue;
+            }
+            let mut q = 1000;
+            let mut ok = true;
+            let mut nparams = 0;
+            for p in parts {
+                nparams += 1;
+                let p = p.trim();
+                match p.strip_prefix("q=").or_else(|| p.strip_prefix("Q=")).and_then(rfc_qvalue) {
+                    Some(v) => q = v,
+                    None => ok = false,
+                }
+            }
+            if !ok || nparams > 1 {
+                ae.malformed = true;
+                continue;
+            }
+            ae.items.push((coding, q));
+        }
+    }
+    ae
+}
+
+/// may a response carry `coding` ("identity" = no coding)?  Explicit entry wins over `*`; q = 0
+/// forbids; identity is acceptable unless excluded.  Contradictory duplicates: any q > 0 permits.
+fn rfc_permits(ae: &RfcAe, coding: &str) -> bool {
+    let explicit: Vec<u32> = ae.items.iter().filter(|i| i.0 == coding).map(|i| i.1).collect();
+    if !explicit.is_empty() {
+        return explicit.iter().any(|&q| q > 0);
+    }
+    let star: Vec<u32> = ae.items.iter().filter(|i| i.0 == "*").map(|i| i.1).collect();
+    if !star.is_empty() {
+        return star.iter().any(|&q| q > 0);
+    }
+    coding == "identity"
+}
+
+// ---------------------------------------------------------------------------------------------
+// neg
+
+fn show_pref(p: &header::Preference<header::Encoding>) -> String {
+    plus(&p.to_string())
+}
+
+fn qnum(q: header::Quality) -> u32 {
+    // Quality's Display is exact to three places
+    let s = q.to_string();
+    rfc_qvalue(&s).unwrap_or(9999)
+}
+
+fn sup_of(letters: &str) -> Vec<header::Encoding> {
+    letters
+        .chars()
+        .filter_map(|c| match c {
+            'i' => Some(header::Encoding::identity()),
+            'b' => Some(header::Encoding::brotli()),
+            'g' => Some(header::Encoding::gzip()),
+            'd' => Some(header::Encoding::deflate()),
+            'z' => Some(header::Encoding::zstd()),
+            _ => None,
+        })
+        .collect()
+}
+
+fn run_neg(line: &str) -> CaseResult {
+    use actix_web::http::header::Header;
+    let hdr = kv(line, "ae").unwrap_or("");
+    let lines: Vec<String> = hdr.split('|').map(unplus).collect();
+    let sup = sup_of(kv(line, "sup").unwrap_or(""));
+    let mut req = test::TestRequest::default();
+    for l in &lines {
+        req = req.append_header((header::ACCEPT_ENCODING, l.as_str()));
+    }
+    let req = req.to_http_request();
+    let ae = match header::AcceptEncoding::parse(&req) {
+        Ok(ae) => ae,
+        Err(_) => return CaseResult::ok("parse-error".into()).tag("neg:parse-error"),
+    };
+    let items: Vec<String> = ae.0.iter().map(|qi| format!("{}:{}", show_pref(&qi.item), qnum(qi.quality))).collect();
+    // ranked() drops the q-values; recover them by matching the stable order: ranked_items is a
+    // permutation of the items, and ranked() lists the items of that permutation
+    let ranked = ae.ranked();
+    let mut pool: Vec<(String, u32, bool)> = ae.0.iter().map(|qi| (show_pref(&qi.item), qnum(qi.quality), false)).collect();
+    let mut ranked_s = Vec::new();
+    let mut last_q = 1001u32;
+    let mut sorted = true;
+    for p in &ranked {
+        let name = show_pref(p);
+        // the first unused entry with this name whose q is the largest still ≤ last_q
+        let mut best: Option<usize> = None;
+        for (i, e) in pool.iter().enumerate() {
+            if !e.2 && e.0 == name && best.map(|b| pool[b].1 < e.1).unwrap_or(true) {
+                best = Some(i);
+            }
+        }
+        match best {
+            Some(i) => {
+                pool[i].2 = true;
+                if pool[i].1 > last_q {
+                    sorted = false;
+                }
+                last_q = pool[i].1;
+                ranked_s.push(format!("{}:{}", name, pool[i].1));
+            }
+            None => ranked_s.push(format!("{}:?", name)),
+        }
+    }
+    let chosen = ae.negotiate(sup.iter());
+    let chosen_s = chosen.as_ref().map(|e| plus(&e.to_string())).unwrap_or_else(|| "none".into());
+    let mut r = CaseResult::ok(format!("items={} ranked={} neg={}", items.join(";"), ranked_s.join(";"), chosen_s));
+    r.nontrivial = !ae.0.is_empty();
+    r.tags.push(format!("neg:{}", if chosen.is_none() { "none" } else if chosen_s == "identity" { "identity" } else { "coding" }));
+    // oracle
+    let rfc = rfc_parse(&lines);
+    if !sorted || ranked.len() != ae.0.len() {
+        r = r.fail("ranked-not-sorted", format!("ranked() = {:?}", ranked_s));
+    }
+    if let Some(enc) = &chosen {
+        let name = enc.to_string().to_ascii_lowercase();
+        if !rfc.malformed && !rfc_permits(&rfc, &name) {
+            r = r.fail(
+                if name == "identity" { "negotiate-identity-forbidden" } else { "negotiate-coding-forbidden" },
+                format!("Accept-Encoding {:?} does not permit '{}' but negotiate chose it", lines, name),
+            );
+        }
+        let id_sup = sup.contains(&header::Encoding::identity());
+        if !sup.contains(enc) && (id_sup || name != "identity") {
+            r = r.fail("negotiate-unsupported", format!("chose '{}' which is not in the supported set", name));
+        }
+        // best: no supported coding explicitly listed with a strictly larger q than every entry of the chosen one
+        if !rfc.malformed {
+            let qc = rfc.items.iter().filter(|i| i.0 == name).map(|i| i.1).max();
+            for s in &sup {
+                let sn = s.to_string();
+                if let Some(qs) = rfc.items.iter().filter(|i| i.0 == sn).map(|i| i.1).max() {
+                    if qs == 0 {
+                        continue;
+                    }
+                    match qc {
+                        // tolerance of one thousandth for the f32 q-value parse (observation O7)
+                        Some(qc) if qs > qc + 1 => {
+                            r = r.fail("negotiate-not-best", format!("chose '{}' (q={}) although supported '{}' has q={}", name, qc, sn, qs));
+                        }
+                        None => {
+                            r = r.fail("negotiate-not-best", format!("fell back to '{}' although supported '{}' is listed with q={}", name, sn, qs));
+                        }
+                        _ => {}
+                    }
+                }
+            }
+        }
+    } else if !sup.is_empty() && !rfc.malformed {
+        // 406 must be justified: identity excluded and no supported coding explicitly acceptable
+        if rfc_permits(&rfc, "identity") && !rfc.items.is_empty() {
+            r = r.fail("negotiate-none-but-identity-ok", format!("Accept-Encoding {:?} permits identity but negotiate returned None", lines));
+        }
+    }
+    r
+}
+
+// ---------------------------------------------------------------------------------------------
+// resp
+
+#[derive(Clone, Debug)]
+enum Ev {
+    Chunk(Bytes),
+    Pending,
+    Err,
+}
+
+struct ScriptBody {
+    size: BodySize,
+    evs: VecDeque<Ev>,
+    /// polls after the script ran out (must stay `None`)
+    log: Rc<RefCell<ScriptLog>>,
+}
+
+#[derive(Default, Debug)]
+struct ScriptLog {
+    polls: usize,
+    polls_after_end: usize,
+}
+
+#[derive(Debug)]
+struct ScriptErr;
+impl std::fmt::Display for ScriptErr {
+    fn fmt(&self, f: &mut std::fmt::Formatter<'_>) -> std::fmt::Result {
+        f.write_str("scripted body error")
+    }
+}
+impl std::error::Error for ScriptErr {}
+
+impl MessageBody for ScriptBody {
+    type Error = ScriptErr;
+    fn size(&self) -> BodySize {
+        self.size
+    }
+    fn poll_next(mut self: Pin<&mut Self>, cx: &mut Context<'_>) -> Poll<Option<Result<Bytes, ScriptErr>>> {
+        self.log.borrow_mut().polls += 1;
+        match self.evs.pop_front() {
+            None => {
+                self.log.borrow_mut().polls_after_end += 1;
+                Poll::Ready(None)
+            }
+            Some(Ev::Pending) => {
+                cx.waker().wake_by_ref();
+                Poll::Pending
+            }
+            Some(Ev::Err) => Poll::Ready(Some(Err(ScriptErr))),
+            Some(Ev::Chunk(b)) => Poll::Ready(Some(Ok(b))),
+        }
+    }
+}
+
+fn opt_val(line: &str, k: &str) -> Option<String> {
+    match kv(line, k) {
+        None | Some("-") => None,
+        Some(v) => Some(unplus(v)),
+    }
+}
+
+fn show_list(v: &[String]) -> String {
+    if v.is_empty() {
+        "-".into()
+    } else {
+        v.iter().map(|s| plus(s)).collect::<Vec<_>>().join(",")
+    }
+}
+
+fn show_size(s: BodySize) -> String {
+    match s {
+        BodySize::None => "none".into(),
+        BodySize::Stream => "stream".into(),
+        BodySize::Sized(n) => n.to_string(),
+    }
+}
+
+struct Collected {
+    chunks: Vec<Bytes>,
+    end: &'static str,
+    polls_after_done_ok: bool,
+    pendings: usize,
+}
+
+async fn collect_body<B: MessageBody>(body: B) -> Collected {
+    let mut body = Box::pin(body);
+    let mut chunks = Vec::new();
+    let mut pendings = 0usize;
+    let mut polls = 0usize;
+    let fut = async {
+        loop {
+            let r = std::future::poll_fn(|cx| {
+                polls += 1;
+                if polls > 2_000_000 {
+                    return Poll::Ready(Err(()));
+                }
+                match body.as_mut().poll_next(cx) {
+                    Poll::Pending => {
+                        pendings += 1;
+                        Poll::Pending
+                    }
+                    Poll::Ready(x) => Poll::Ready(Ok(x)),
+                }
+            })
+            .await;
+            match r {
+                Err(()) => return "hang",
+                Ok(None) => return "done",
+                Ok(Some(Err(_))) => return "err",
+                Ok(Some(Ok(b))) => chunks.push(b),
+            }
+        }
+    };
+    let end = match tokio::time::timeout(Duration::from_secs(60), fut).await {
+        Ok(e) => e,
+        Err(_) => "hang",
+    };
+    // a finished stream stays finished
+    let mut stable = true;
+    if end == "done" {
+        for _ in 0..2 {
+            let again = tokio::time::timeout(Duration::from_secs(5), std::future::poll_fn(|cx| body.as_mut().poll_next(cx))).await;
+            if !matches!(again, Ok(None)) {
+                stable = false;
+            }
+        }
+    }
+    Collected { chunks, end, polls_after_done_ok: stable, pendings }
+}
+
+fn run_resp(line: &str) -> CaseResult {
+    let line = line.to_owned();
+    block_on_system(async move { run_resp_async(&line).await })
+}
+
+async fn run_resp_async(line: &str) -> CaseResult {
+    let ae: Option<Vec<String>> = match kv(line, "ae") {
+        None | Some("-") => None,
+        Some(h) => Some(h.split('|').map(unplus).collect()),
+    };
+    let st: u16 = kv(line, "st").and_then(|s| s.parse().ok()).unwrap_or(200);
+    let hce = opt_val(line, "hce");
+    let hvary = opt_val(line, "hvary");
+    let ct = opt_val(line, "ct");
+    let kind = kv(line, "kind").unwrap_or("full").to_owned();
+    let toks = parse_toks(kv(line, "ev").unwrap_or(""));
+    let total: usize = toks.iter().map(|t| if let Tok::Sz(n) = t { *n } else { 0 }).sum();
+    let bytes = Bytes::from(gen_body(kv(line, "body").unwrap_or("c0"), total));
+    // what the handler will have written when the stream ends / fails
+    let mut evs = VecDeque::new();
+    let mut written: Vec<Bytes> = Vec::new();
+    let mut has_err = false;
+    {
+        let mut off = 0usize;
+        for t in &toks {
+            match t {
+                Tok::Sz(n) => {
+                    let b = bytes.slice(off..off + n);
+                    off += n;
+                    if !has_err {
+                        written.push(b.clone());
+                    }
+                    evs.push_back(Ev::Chunk(b));
+                }
+                Tok::P => evs.push_back(Ev::Pending),
+                Tok::E => {
+                    has_err = true;
+                    evs.push_back(Ev::Err)
+                }
+            }
+        }
+    }
+    let is_script = kind == "sized" || kind == "stream";
+    if !is_script {
+        has_err = false;
+        written = if kind == "none" || bytes.is_empty() { vec![] } else { vec![bytes.clone()] };
+    }
+    let handler_body: Vec<u8> = written.iter().flat_map(|b| b.iter().copied()).collect();
+    let log = Rc::new(RefCell::new(ScriptLog::default()));
+
+    let spec = Rc::new((st, hce.clone(), hvary.clone(), ct.clone(), kind.clone(), bytes.clone(), evs, log.clone()));
+    let app = test::init_service(App::new().wrap(Compress::default()).default_service(web::to(move || {
+        let spec = spec.clone();
+        async move {
+            let (st, hce, hvary, ct, kind, bytes, evs, log) = &*spec;
+            let mut b = HttpResponse::build(StatusCode::from_u16(*st).unwrap());
+            if let Some(v) = ct {
+                b.insert_header((header::CONTENT_TYPE, v.as_str()));
+            }
+            if let Some(v) = hce {
+                b.insert_header((header::CONTENT_ENCODING, v.as_str()));
+            }
+            if let Some(v) = hvary {
+                b.insert_header((header::VARY, v.as_str()));
+            }
+            match kind.as_str() {
+                "none" => b.body(actix_web::body::None::new()).map_into_boxed_body(),
+                "full" => b.body(bytes.clone()).map_into_boxed_body(),
+                "sized" => b
+                    .body(ScriptBody { size: BodySize::Sized(bytes.len() as u64), evs: evs.clone(), log: log.clone() })
+                    .map_into_boxed_body(),
+                _ => b.body(ScriptBody { size: BodySize::Stream, evs: evs.clone(), log: log.clone() }).map_into_boxed_body(),
+            }
+        }
+    })))
+    .await;
+
+    let mut req = test::TestRequest::get().uri("/x");
+    if let Some(lines) = &ae {
+        for l in lines {
+            req = req.append_header((header::ACCEPT_ENCODING, l.as_str()));
+        }
+    }
+    let res = test::call_service(&app, req.to_request()).await;
+    let status = res.status().as_u16();
+    let get_all = |n: header::HeaderName| -> Vec<String> {
+        res.headers().get_all(n).map(|v| String::from_utf8_lossy(v.as_bytes()).into_owned()).collect()
+    };
+    let ce = get_all(header::CONTENT_ENCODING);
+    let vary = get_all(header::VARY);
+    let cl = get_all(header::CONTENT_LENGTH);
+    let (_, resp) = res.into_parts();
+    let (_, body) = resp.into_parts();
+    let size = body.size();
+    let col = collect_body(body).await;
+    let raw: Vec<u8> = col.chunks.iter().flat_map(|b| b.iter().copied()).collect();
+
+    // did the middleware encode?  (the handler's own Content-Encoding, if any, is kept as is)
+    let encoded = hce.is_none() && status != 406 && !ce.is_empty();
+    let mut fails: Vec<(String, String)> = Vec::new();
+    let body_str = if encoded {
+        if col.end == "done" {
+            match decode(&ce[0], &raw) {
+                Ok(d) => {
+                    if d != handler_body {
+                        fails.push(("decoded-body-differs".into(), format!("coding {} decoded {} bytes, handler wrote {}", ce[0], d.len(), handler_body.len())));
+                    }
+                    format!("chunks=* {}", show_sum(&d))
+                }
+                Err(e) => {
+                    fails.push(("undecodable".into(), e));
+                    "chunks=* n=! sum=!".into()
+                }
+            }
+        } else {
+            "chunks=* n=- sum=-".into()
+        }
+    } else {
+        let lens: Vec<String> = col.chunks.iter().map(|c| c.len().to_string()).collect();
+        format!("chunks={} {}", if lens.is_empty() { "-".into() } else { lens.join(",") }, show_sum(&raw))
+    };
+    let output = format!(
+        "st={} ce={} vary={} size={} {} end={}",
+        status,
+        show_list(&ce),
+        show_list(&vary),
+        show_size(size),
+        body_str,
+        col.end
+    );
+
+    // ---- oracle
+    if col.end == "hang" {
+        fails.push(("no-termination".into(), "body stream did not end".into()));
+    }
+    if !col.polls_after_done_ok {
+        fails.push(("end-not-stable".into(), "poll_next after Ready(None) did not return Ready(None)".into()));
+    }
+    if has_err && col.end != "err" && status != 406 && size != BodySize::None && !(matches!(size, BodySize::Sized(0))) {
+        fails.push(("error-swallowed".into(), format!("body error was not propagated (end={})", col.end)));
+    }
+    if !has_err && col.end == "err" {
+        fails.push(("spurious-error".into(), "stream failed although the body did not".into()));
+    }
+    let must_pass = hce.is_some() || matches!(st, 101 | 204 | 206) || total == 0 && kind != "stream" || kind == "none";
+    if status == 406 {
+        // the request must really exclude the unencoded representation
+        if let Some(lines) = &ae {
+            let rfc = rfc_parse(lines);
+            if !rfc.malformed && rfc_permits(&rfc, "identity") {
+                fails.push(("406-but-identity-ok".into(), format!("Accept-Encoding {:?} permits identity", lines)));
+            }
+        } else {
+            fails.push(("406-without-header".into(), "406 without Accept-Encoding".into()));
+        }
+        if !ce.is_empty() {
+            fails.push(("406-encoded".into(), "406 answer carries Content-Encoding".into()));
+        }
+    } else {
+        if status != st {
+            fails.push(("status-changed".into(), format!("handler {} → {}", st, status)));
+        }
+        // labelled & negotiated
+        let label = if encoded { ce[0].to_ascii_lowercase() } else { "identity".to_owned() };
+        if encoded && ce.len() != 1 {
+            fails.push(("multiple-content-encoding".into(), format!("{:?}", ce)));
+        }
+        // the server's policy leaves some representations unencoded (image/video types); there the
+        // only available representation is the identity one (RFC 7231 §5.3.4 last paragraph)
+        let ctl = ct.as_deref().unwrap_or("").to_ascii_lowercase();
+        let policy_identity = (ctl.starts_with("image/") && !ctl.starts_with("image/svg")) || ctl.starts_with("video/");
+        let free = hce.is_none() && !must_pass && !policy_identity;
+        if encoded || free {
+            match &ae {
+                Some(lines) => {
+                    let rfc = rfc_parse(lines);
+                    if !rfc.malformed && !rfc_permits(&rfc, &label) {
+                        fails.push((
+                            if label == "identity" { "identity-sent-but-forbidden".into() } else { "coding-not-permitted".into() },
+                            format!("Accept-Encoding {:?} does not permit '{}'", lines, label),
+                        ));
+                    }
+                }
+                None => {
+                    if encoded {
+                        fails.push(("encoded-without-accept-encoding".into(), format!("no Accept-Encoding, yet Content-Encoding {}", label)));
+                    }
+                }
+            }
+        }
+        if encoded {
+            // no stale length: the encoded body must not announce the handler's length
+            if size != BodySize::Stream {
+                fails.push(("stale-length".into(), format!("encoded body has size {:?}", size)));
+            }
+            if !cl.is_empty() {
+                fails.push(("stale-length".into(), format!("content-length header {:?} on an encoded response", cl)));
+            }
+            if !vary.iter().any(|v| v.to_ascii_lowercase().contains("accept-encoding")) {
+                fails.push(("vary-missing".into(), format!("vary = {:?}", vary)));
+            }
+            if let Some(v) = &hvary {
+                if vary.first() != Some(v) {
+                    fails.push(("vary-lost".into(), format!("handler's Vary {:?} not kept: {:?}", v, vary)));
+                }
+            }
+            if must_pass {
+                fails.push(("must-not-encode".into(), format!("status {} / handler CE {:?} / empty body was re-encoded", st, hce)));
+            }
+        } else {
+            // pass-through: untouched head and chunks
+            let want_ce: Vec<String> = hce.iter().cloned().collect();
+            let want_vary: Vec<String> = hvary.iter().cloned().collect();
+            if ce != want_ce || vary != want_vary {
+                fails.push(("passthrough-head-changed".into(), format!("ce {:?}→{:?} vary {:?}→{:?}", want_ce, ce, want_vary, vary)));
+            }
+            if col.end == "done" || col.end == "err" {
+                let got: Vec<&[u8]> = col.chunks.iter().map(|b| &b[..]).collect();
+                let want: Vec<&[u8]> = written.iter().map(|b| &b[..]).collect();
+                if raw != handler_body {
+                    fails.push(("passthrough-body-changed".into(), format!("{} bytes out, {} bytes in", raw.len(), handler_body.len())));
+                } else if got != want && is_script && total > 0 {
+                    fails.push(("passthrough-chunking-changed".into(), format!("{} chunks out, {} in", got.len(), want.len())));
+                }
+            }
+            let want_size = match kind.as_str() {
+                "none" => BodySize::None,
+                "stream" => BodySize::Stream,
+                _ => BodySize::Sized(total as u64),
+            };
+            if size != want_size {
+                fails.push(("passthrough-size-changed".into(), format!("{:?} → {:?}", want_size, size)));
+            }
+        }
+    }
+
+    let mut tags = Vec::new();
+    tags.push(format!(
+        "resp:{}",
+        if status == 406 {
+            "406".to_owned()
+        } else if encoded {
+            format!("enc:{}", ce[0])
+        } else if hce.is_some() {
+            "pass:ce".to_owned()
+        } else if matches!(st, 101 | 204 | 206) {
+            format!("pass:{}", st)
+        } else if handler_body.is_empty() {
+            "pass:empty".to_owned()
+        } else {
+            "pass:identity".to_owned()
+        }
+    ));
+    tags.push(format!("kind:{}", kind));
+    if encoded {
+        let small = toks.iter().any(|t| matches!(t, Tok::Sz(n) if *n < 1024));
+        let big = toks.iter().any(|t| matches!(t, Tok::Sz(n) if *n >= 1024));
+        tags.push(format!("path:{}", match (small, big) { (true, true) => "both", (true, false) => "in-place", (false, true) => "blocking", _ => "none" }));
+        if col.pendings > 0 {
+            tags.push("saw-pending".into());
+        }
+    }
+    if has_err {
+        tags.push("body-error".into());
+    }
+    let nontrivial = status == 406 || !handler_body.is_empty();
+    CaseResult { output, fail: fails.into_iter().next(), nontrivial, tags }
+}
+
+// ---------------------------------------------------------------------------------------------
+// generator
+
+const CODINGS: &[&str] = &["gzip", "br", "deflate", "zstd", "identity", "*", "compress", "x-gzip", "GZIP", "Br", "Identity", "foo"];
+const QS: &[&str] = &[
+    "", "", "", ";q=0", ";q=1", ";q=0.5", ";_q=0.8", ";q=0.001", ";Q=0.9", ";q=1.0", ";q=0.0", ";q=0.000", ";q=0.25", ";q=0.251",
+    ";q=0.3", ";q=0.30", ";q=0.300", ";q=.5", ";q=1.", ";q=0.", ";q=1.000", "_;_q=0.7", ";q=0.999", ";q=0.502", ";q=0.01",
+];
+const BAD_QS: &[&str] = &[";q=2", ";q=1.5", ";q=0.1234", ";q=", ";x=1", ";q=abc", ";q", ";", ";q=0.5;x=1", ";q=1.001"];
+
+fn gen_ae(rng: &mut Rng) -> String {
+    if rng.chance(1, 30) {
+        return String::new();
+    }
+    let n = if rng.chance(1, 10) { rng.range(4, 7) } else { rng.range(1, 3) };
+    let mut s = String::new();
+    for i in 0..n {
+        if i > 0 {
+            s.push_str(*rng.pick(&[",", ",_", "_,_", ",,", "|", "|"]));
+        }
+        s.push_str(*rng.pick(CODINGS));
+        if rng.chance(1, 12) {
+            s.push_str(*rng.pick(BAD_QS));
+        } else if rng.chance(1, 6) {
+            s.push_str(&format!(";q=0.{:03}", rng.below(1000)));
+        } else {
+            s.push_str(*rng.pick(QS));
+        }
+    }
+    s
+}
+
+const SMALL_C: &[&str] = &["gzip", "br", "identity", "*", "foo"];
+const SMALL_Q: &[&str] = &["", ";q=0", ";q=0.5", ";q=1"];
+
+fn small_items() -> Vec<String> {
+    let mut v = Vec::new();
+    for c in SMALL_C {
+        for q in SMALL_Q {
+            v.push(format!("{c}{q}"));
+        }
+    }
+    v
+}
+
+const SIZES: &[usize] = &[0, 1, 1023, 1024, 1025, 2047, 2048, 2049];
+const AE_FOR: &[&str] = &["gzip", "br", "deflate", "zstd", "identity", "-", "*", "gzip;q=0.5,_br;q=0.5", "*;q=0"];
+const CTS: &[&str] = &[
+    "-", "-", "text/plain", "text/html;_charset=utf-8", "image/png", "image/svg+xml", "IMAGE/JPEG", "video/mp4",
+    "application/json", "garbage", "audio/mpeg", "image/", "Video/WebM",
+];
+
+fn compositions(n: usize) -> Vec<Vec<usize>> {
+    if n == 0 {
+        return vec![vec![]];
+    }
+    let mut out = Vec::new();
+    for first in 1..=n {
+        for mut rest in compositions(n - first) {
+            let mut v = vec![first];
+            v.append(&mut rest);
+            out.push(v);
+        }
+    }
+    out
+}
+
+fn join(v: &[usize]) -> String {
+    v.iter().map(|n| n.to_string()).collect::<Vec<_>>().join(",")
+}
+
+fn gen(ctx: &Ctx) -> Vec<String> {
+    let mut rng = Rng::new(ctx.seed);
+    let mut cases = Vec::new();
+    let thorough = ctx.tier != Tier::Quick;
+    // ---- neg: exhaustive small headers
+    let items = small_items();
+    for a in &items {
+        cases.push(format!("neg ae={a} sup=ibgdz"));
+        for b in &items {
+            cases.push(format!("neg ae={a},{b} sup=ibgdz"));
+            if thorough {
+                for c in &items {
+                    cases.push(format!("neg ae={a},{b},{c} sup=ibgdz"));
+                }
+            }
+        }
+    }
+    for _ in 0..ctx.budget(1500) {
+        let sup = *rng.pick(&["ibgdz", "ibgdz", "i", "ig", "ib", "g", "bz", "", "igg", "idz"]);
+        cases.push(format!("neg ae={} sup={}", gen_ae(&mut rng), sup));
+    }
+    // ---- resp: size × coding × kind matrix
+    for ae in AE_FOR {
+        for &n in SIZES {
+            for kind in ["full", "stream", "sized"] {
+                cases.push(format!("resp ae={ae} st=200 hce=- hvary=- ct=- kind={kind} body=c{n} ev={n} j={}", n % 3));
+            }
+        }
+    }
+    // incompressible
+    for ae in ["gzip", "br", "deflate", "zstd"] {
+        for &n in &[1usize, 1023, 1024, 2048, 70000] {
+            cases.push(format!("resp ae={ae} st=200 hce=- hvary=- ct=- kind=stream body=r{n} ev={n} j=1"));
+        }
+    }
+    // all chunkings of a small body, every coding
+    for ae in ["gzip", "br", "deflate", "zstd", "identity"] {
+        for comp in compositions(if thorough { 6 } else { 4 }) {
+            cases.push(format!("resp ae={ae} st=200 hce=- hvary=- ct=- kind=stream body=c7 ev={} j=0", join(&comp)));
+        }
+    }
+    // threshold neighbours in sequence, with Pending between
+    for ae in ["gzip", "br", "deflate", "zstd"] {
+        for a in [1023usize, 1024, 1025] {
+            for b in [0usize, 1, 1023, 1024] {
+                cases.push(format!("resp ae={ae} st=200 hce=- hvary=origin ct=text/plain kind=stream body=c{a} ev={a},p,{b},p,p,{a} j=2,0,1"));
+                cases.push(format!("resp ae={ae} st=200 hce=- hvary=- ct=- kind=sized body=r{b} ev={b},{a},{b} j=0,3"));
+            }
+        }
+    }
+    // statuses and handler headers that must pass through
+    for st in [200u16, 201, 204, 206, 101, 304, 404, 500] {
+        for hce in ["-", "gzip", "identity", "x-custom"] {
+            for kind in ["full", "stream", "none"] {
+                cases.push(format!("resp ae=gzip,_br st={st} hce={hce} hvary=- ct=- kind={kind} body=c1 ev=300,1500 j=1"));
+            }
+        }
+    }
+    for ct in CTS {
+        cases.push(format!("resp ae=br st=200 hce=- hvary=accept-language ct={ct} kind=full body=c2 ev=2000"));
+    }
+    // 1 MiB
+    let big = 1usize << 20;
+    for (ae, body, ev) in [
+        ("gzip", "c9", format!("{big}")),
+        ("br", "r9", format!("{big}")),
+        ("zstd", "c8", vec!["16384"; 64].join(",")),
+        ("deflate", "r8", vec!["65536"; 16].join(",")),
+    ] {
+        cases.push(format!("resp ae={ae} st=200 hce=- hvary=- ct=- kind=stream body={body} ev={ev} j=1,1"));
+    }
+    cases.push(format!("resp ae=gzip st=200 hce=- hvary=- ct=- kind=full body=c5 ev={big}"));
+    if thorough {
+        for ae in ["gzip", "br", "deflate", "zstd"] {
+            for body in ["c3", "r3"] {
+                cases.push(format!("resp ae={ae} st=200 hce=- hvary=- ct=- kind=full body={body} ev={big}"));
+                cases.push(format!("resp ae={ae} st=200 hce=- hvary=- ct=- kind=stream body={body} ev={}", vec!["4099"; 255].join(",")));
+            }
+        }
+    }
+    // exhaustive small headers through the middleware (1- and 2-item)
+    for a in &items {
+        cases.push(format!("resp ae={a} st=200 hce=- hvary=- ct=- kind=full body=c1 ev=100"));
+        for b in &items {
+            if rng.chance(1, if thorough { 1 } else { 3 }) {
+                cases.push(format!("resp ae={a},{b} st=200 hce=- hvary=- ct=- kind=stream body=c1 ev=40,p,60 j=1"));
+            }
+        }
+    }
+    // ---- resp: random
+    for _ in 0..ctx.budget(900) {
+        let ae = if rng.chance(1, 10) { "-".to_owned() } else { gen_ae(&mut rng) };
+        let st = *rng.pick(&[200u16, 200, 200, 200, 201, 204, 206, 101, 304, 404, 500]);
+        let hce = *rng.pick(&["-", "-", "-", "-", "-", "gzip", "br", "identity", "x-custom"]);
+        let hvary = *rng.pick(&["-", "-", "origin", "accept-encoding", "*"]);
+        let ct = *rng.pick(CTS);
+        let kind = *rng.pick(&["full", "sized", "stream", "stream", "stream", "none"]);
+        let nchunks = if kind == "full" { 1 } else { rng.range(0, 8) };
+        let mut ev: Vec<String> = Vec::new();
+        for _ in 0..nchunks {
+            while rng.chance(1, 4) {
+                ev.push("p".into());
+            }
+            let n = match rng.below(10) {
+                0 => 0,
+                1 => rng.range(1, 16),
+                2 | 3 => *rng.pick(&[1022usize, 1023, 1024, 1025, 2047, 2048, 2049]),
+                4 | 5 | 6 => rng.range(1, 1500),
+                7 | 8 => rng.range(1024, 9000),
+                _ => rng.range(9000, 120000),
+            };
+            ev.push(n.to_string());
+            if rng.chance(1, 40) {
+                ev.push("e".into());
+            }
+        }
+        while rng.chance(1, 5) {
+            ev.push("p".into());
+        }
+        let body = format!("{}{}", if rng.chance(1, 3) { 'r' } else { 'c' }, rng.below(50));
+        let j: Vec<String> = (0..rng.below(4)).map(|_| rng.below(3).to_string()).collect();
+        cases.push(format!(
+            "resp ae={ae} st={st} hce={hce} hvary={hvary} ct={ct} kind={kind} body={body} ev={} j={}",
+            if ev.is_empty() { "-".to_owned() } else { ev.join(",") },
+            if j.is_empty() { "-".to_owned() } else { j.join(",") }
+        ));
+    }
+    cases
+}
+
+fn run(line: &str) -> CaseResult {
+    match line.split_ascii_whitespace().next() {
+        Some("neg") => run_neg(line),
+        Some("resp") => run_resp(line),
+        _ => CaseResult::ok("bad-case".into()),
+    }
+}
 
 pub fn prop() -> Prop {
-    Prop {
-        rule: "unimplemented",
-        parallel: false,
-        gen: Box::new(|_| Vec::new()),
-        run: Box::new(|_| CaseResult::ok("unimplemented".to_owned())),
-    }
+    Prop { rule: RULE, parallel: true, gen: Box::new(gen), run: Box::new(run) }
 }
